@@ -306,9 +306,22 @@ class FileResponse(StreamResponse):
         count: int = file_size
         start: int | None = None
 
-        if (ifrange := request.if_range) is None or file_mtime <= ifrange.timestamp():
+        etag_value = f"{st.st_mtime_ns:x}-{st.st_size:x}"
+        ifrange_hdr = request.headers.get(hdrs.IF_RANGE)
+        if ifrange_hdr is None:
+            process_range = True
+        elif (ifrange := request.if_range) is not None:
+            process_range = file_mtime <= ifrange.timestamp()
+        else:
+            # Not an HTTP-date: an entity-tag, which must match using the
+            # strong comparison (a weak tag never matches); anything else
+            # cannot match either.
+            process_range = ifrange_hdr.strip() == f'"{etag_value}"'
+
+        if process_range:
             # If-Range header check:
             # condition = cached date >= last modification date
+            #             or cached entity-tag == current strong entity-tag
             # return 206 if True else 200.
             # if False:
             #   Range header would not be processed, return 200
@@ -391,7 +404,7 @@ class FileResponse(StreamResponse):
             # compress.
             self._compression = False
 
-        self.etag = f"{st.st_mtime_ns:x}-{st.st_size:x}"
+        self.etag = etag_value
         self.last_modified = file_mtime
         self.content_length = count
 
